@@ -73,6 +73,8 @@ type hist struct {
 	pst              *persistObs  // C02/C04 oracle state of the persistent small-cache node (stall.go)
 	uncompared0      bool         // node 0 runs on a small cache (Badger or in-memory) and is not model-compared
 	passArm          map[int]bool // -split -passfaults: nodes that may lose a consensus-pass write in the current episode
+	forcedDiffers    int          // scratch counter of fameDistance (stats.go)
+	voteTrace        *[]string    // debug: votes per round of the last fameDistance call
 	appFailed        map[int]bool // -appfaults: nodes whose application failed a commit (their application state has diverged)
 }
 
